@@ -208,7 +208,7 @@ impl Check for C08 {
         "fault_enumeration"
     }
     fn rule(&self) -> String {
-        "for each attack configuration (n in {2,3}; corrupted evaluator or garbler; honest victims in both roles) an honest reference run is recorded; then one fault per simulated run is injected into the corrupted party's outgoing traffic: every message index x every mutation class (empty, truncations, appended junk, same-length random, bit flip, byte overwrite, structure-aware on the decoded value tree: bool flip, invalid bool byte, 128-bit xor, option Some<->None, element count +-1 / 0 at every nesting level with consistent prefix, inconsistent length prefixes 2^20 / 2^40 / 2^63 / 2^64-1), all byte vectors of a message emptied / cut to one byte at once, duplicate, replace-by-earlier, drop, swap-with-next (scripted adversary: positional replay of the reference, victim sees a bit-identical prefix and every later message), a seeded swarm of runs with 2-4 random structure-aware edits, and crash after every k-th message (live adversary); plus the crate's own SimpleChannel on a paused tokio clock with a peer that goes silent after k messages while keeping its channel ends open (the honest parties must come back with the receive timeout within one virtual hour). n=3 configurations take a seeded third of the sites in quick. Oracle: every honest task reaches Ok/Err, no poll panics, no honest party waits once all its peers terminated, steps <= 50x honest, allocation peak <= honest peak + 16 MiB + 64 x bytes received and no single request above 256 MiB. evaluations = attacked runs; distinct = (configuration, message index, mutation) triples whose fault actually fired".into()
+        "for each attack configuration (n in {2,3}; corrupted evaluator or garbler; honest victims in both roles) an honest reference run is recorded; then one fault per simulated run is injected into the corrupted party's outgoing traffic: every message index x every mutation class (empty, truncations, appended junk, same-length random, bit flip, byte overwrite, structure-aware on the decoded value tree: bool flip, invalid bool byte, 128-bit xor, option Some<->None, element count +-1 / 0 at every nesting level with consistent prefix, inconsistent length prefixes 2^20 / 2^40 / 2^63 / 2^64-1), all byte vectors of a message emptied / cut to one byte at once, duplicate, replace-by-earlier, drop, swap-with-next (scripted adversary: positional replay of the reference, victim sees a bit-identical prefix and every later message), a seeded swarm of runs with 2-4 random structure-aware edits, the multi-message and self-adapting liars of the C04 catalogue (malformed data that passes the first check it meets, e.g. a decommitment cut short together with a recomputed commitment), and crash after every k-th message (live adversary); plus the crate's own SimpleChannel on a paused tokio clock with a peer that goes silent after k messages while keeping its channel ends open (the honest parties must come back with the receive timeout within one virtual hour). n=3 configurations take a seeded third of the sites in quick. Oracle: every honest task reaches Ok/Err, no poll panics, no honest party waits once all its peers terminated, steps <= 50x honest, allocation peak <= honest peak + 16 MiB + 64 x bytes received and no single request above 256 MiB. evaluations = attacked runs; distinct = (configuration, message index, mutation) triples whose fault actually fired".into()
     }
     fn assumptions(&self) -> Vec<String> {
         vec![
@@ -302,6 +302,22 @@ impl Check for C08 {
             out.count("multi_fault_swarm_runs", 1);
             out.distinct.push(entropy::fnv(0, serde_json::to_string(&(&spec.faults, cfg.base.seed)).unwrap().as_bytes()));
             out.violations.extend(c08_oracle(spec, &run, r.steps, &r.alloc));
+        }
+        // malformed data that passes the first check it meets: the liars of the C04 catalogue that stay
+        // consistent with their own commitments (incl. decommitments cut short with a recomputed
+        // commitment) or adapt their own state through a tap, and the d-value opening left out
+        for (i, d) in crate::checks::c04::deviations(&cfg, &r, seed).into_iter().filter(|d| d.spec.faults.len() > 1 || !d.spec.taps.is_empty()).enumerate() {
+            if i as u64 % SHARDS != shard {
+                continue;
+            }
+            cx.begin(&serde_json::to_value(&d.spec).unwrap());
+            let run = run_attack(&d.spec, Some(r.run.clone()));
+            out.evals += 1;
+            out.sim_steps += run.res.steps;
+            out.merge_fired(&run.res.fired);
+            out.count("self_consistent_liar_runs", 1);
+            out.distinct.push(entropy::fnv(0, serde_json::to_string(&(&d.spec.faults, &d.spec.taps, cfg.base.seed)).unwrap().as_bytes()));
+            out.violations.extend(c08_oracle(&d.spec, &run, r.steps, &r.alloc));
         }
         for (i, sub) in subs.iter().enumerate() {
             if i as u64 % SHARDS != shard {
